@@ -102,7 +102,7 @@ def _u_jobs(tag, a, base, B, lenbytes):
     # thorough tier: a spread of further tail lengths (word/half-block boundaries and their neighbours);
     # all B tail lengths would be ~7 CPU-hours for the five update variants
     tt = sorted(set(qt) | {2, 7, 8, 9, 16, 31, 32, 33, 48, B - lenbytes - 2, B - lenbytes + 1, B - 2} if B == 64 else set(qt))
-    for t in tt:
+    for t in [x for x in tt if 0 <= x < B]:
         content(t, 66, "quick" if t in qt else "thorough")	# 66 = B + 2 for the 64-byte algorithms
     if B == 64:
         for t in qt:
